@@ -11,6 +11,7 @@ git -C /repo worktree add --detach "$WT" HEAD >/dev/null 2>&1 || exit 2
 git -C "$WT" apply "$D/patch.diff" || { git -C /repo worktree remove --force "$WT"; exit 2; }
 cd /verif && VERIF_REPO_OVERRIDE="$WT" ./check "$PROP" --tier "$TIER" > /tmp/try/$NAME.$PROP.out 2>&1; RC=$?
 git -C /repo worktree remove --force "$WT"
+rm -rf "/dev/shm/verif-try-$(echo "$WT" | sed "s|^/||; s|/|_|g")"
 grep -E "^VIOLATION|^KNOWN|^\[C|MACHINERY" /tmp/try/$NAME.$PROP.out | cut -c1-200 | head -6
 grep -E "^  clause=" /tmp/try/$NAME.$PROP.out | sed 's/ witness=.*//' | sort | uniq -c | head -8
 echo "seeded=$NAME property=$PROP exit=$RC"
